@@ -530,6 +530,8 @@ def deriv_gp_cases(ctx, drv, tier):
 
 # ------------------------------------------------------------------------------------------------ W2 variational strategies
 
+VSTRAT_SYM_TOL = 1e-10     # rounding of K_xx + B^T (S - I) B relative to the summands; a wrong factor moves it by >= 1e-3
+
 VSTRATS = [("whitened", ["cholesky", "meanfield", "delta", "natural", "tril_natural"]),
            ("unwhitened", ["cholesky", "meanfield", "delta"]),
            ("batchdec-1", ["cholesky", "meanfield", "tril_natural"]), ("batchdecNone", ["cholesky", "meanfield"]),
@@ -727,9 +729,15 @@ def run_vstrat(ctx, drv, p, want_driver=True):
                 mats = [("q(f)", qc)]
             if pc is not None and pc.dim() == 2:
                 mats.append(("predictive", pc))
-            sscale = max(qc.abs().max().item(), 1e-300)
+            with torch.no_grad(), warnings.catch_warnings():
+                warnings.simplefilter("ignore")
+                kx = model.covar_module(X)
+                kx = kx.to_dense() if hasattr(kx, "to_dense") else kx
+            # scale of the summands K_xx and B^T S B (the result itself can be much smaller: cancellation near inducing points)
+            sscale = max(qc.abs().max().item(), kx.abs().max().item(), 1e-300)
             for name, Mx in mats:
-                sm, info = B.cov_screen(Mx, sscale)
+                sm, info = B.float_screen(Mx, None, scale_ref=sscale, sym_tol=VSTRAT_SYM_TOL)
+                sm = [x for x in sm if x[0] != "correlation>1"]
                 for sym, detail in sm:
                     mag = info.get("asym_rel", 0.0) if sym == "asymmetric" else max(abs(min(info.get("rel_min_eig", 0.0), 0.0)), B.EIG_TOL)
                     fails.append((f"{label}-{name.split('[')[0]}-{sym}", f"{tag}: {name} covariance {detail}", sym, mag,
@@ -818,7 +826,10 @@ def ovc_payload(rng, strategy):
     ev = torch.rand(M, generator=g) * 0.5 + 0.08            # eigenvalues of the whitened S in [0.08, 0.58]: S < I, well conditioned
     S = Q @ torch.diag(ev) @ Q.T
     return {"kind": "ovc", "strategy": strategy, "d": d, "kernel": rng.choice(["rbf", "matern1.5"]), "s": rng.choice([0.5, 1.0, 2.0]),
-            "l": rng.choice([0.5, 0.8]), "noise": rng.choice([0.02, 0.1]), "inducing": (torch.rand(M, d, generator=g) * 2).tolist(),
+            "l": rng.choice([0.5, 0.8]), "noise": rng.choice([0.02, 0.1]),
+            # inducing points on a jittered grid along the first coordinate (well separated: K_ZZ well conditioned)
+            "inducing": torch.cat([((torch.arange(M) + 0.5) / M * 2 + 0.1 * torch.randn(M, generator=g)).unsqueeze(-1),
+                                   torch.rand(M, d - 1, generator=g) * 2], -1).tolist(),
             "S_whitened": ((S + S.T) / 2).tolist(), "vmean": (torch.randn(M, generator=g) * 0.5).tolist(),
             "fant_x": (torch.rand(rng.choice([1, 2, 3]), d, generator=g) * 2).tolist(),
             "test_x": (torch.rand(rng.choice([2, 3, 4]), d, generator=g) * 2).tolist(), "fant_seed": rng.getrandbits(20)}
@@ -899,7 +910,11 @@ def run_ovc(ctx, drv, p, want_driver=True, judge_known=True):
         N[:M, :M] = Dhat
         N[M:, M:] = p["noise"] * torch.eye(nf)
         scale = max(torch.linalg.eigvalsh((Kss + Kss.T) / 2).abs().max().item(), 1e-300)
-        if torch.linalg.cond(KA + N).item() > 1e5 or torch.linalg.cond(Kzz).item() > 1e5:
+        # the code regularises (R R^T + jitter)^-1 with R = I - S (whitened) / K - S_u (unwhitened): judge only where that
+        # regularisation is negligible (jitter / lambda_min(R R^T) <= 1e-3), and the reference solve is well conditioned
+        Rm = torch.eye(M) - Sw if p["strategy"] == "whitened" else Kzz - L @ Sw @ L.T
+        lam = torch.linalg.eigvalsh(Rm @ Rm.T)[0].item()
+        if torch.linalg.cond(KA + N).item() > 1e5 or torch.linalg.cond(Kzz).item() > 1e5 or m.variational_strategy.jitter_val > 1e-3 * lam:
             ctx is not None and ctx.count("ovc_discarded_ill_conditioned")
             return fails
         ref = Kss - KsA @ torch.linalg.solve(KA + N, KsA.T)
